@@ -113,7 +113,7 @@ class C03(SMSpec):
         sig = [dict(kind="sig", deco=d, params=list(p)) for d in ("state", "timed", "default") for p in SUBSETS]
         if tier == "quick":
             hist = ([mkjob(s, 3, 2) for s in ("S1", "S3", "S4", "S5")] + [mkjob(s, 5, 0, ext=False) for s in ("S2", "S6")]
-                    + [mkjob("S8", 4, 1, variant=1)])
+                    + [mkjob("S8", 4, 1, variant=1)] + [self.twinjob("S1", 3, 0, variant=2), self.twinjob("S2", 4, 0, variant=1)])
         else:
             hist = ([mkjob(s, 4, 2, variant=1) for s in ("S1", "S3", "S4", "S5")]
                     + [mkjob(s, 3, 3, ext_per_iter=2, nsn_depth=2, variant=2) for s in ("S1", "S4")]
